@@ -18,12 +18,15 @@ where
     let l_nm = reader.read_i32_le().await?;
 
     let names_len =
-        usize::try_from(l_nm).map_err(|e| io::Error::new(io::ErrorKind::InvalidData, e))?;
-    let mut names = vec![0; names_len];
-    reader.read_exact(&mut names).await?;
+        u64::try_from(l_nm).map_err(|e| io::Error::new(io::ErrorKind::InvalidData, e))?;
 
     buf.extend(l_nm.to_le_bytes());
-    buf.extend(names);
+
+    let n = reader.take(names_len).read_to_end(&mut buf).await?;
+
+    if (n as u64) < names_len {
+        return Err(io::Error::from(io::ErrorKind::UnexpectedEof));
+    }
 
     let mut buf_reader = &buf[..];
     read_header(&mut buf_reader).map_err(|e| io::Error::new(io::ErrorKind::InvalidData, e))
@@ -63,5 +66,26 @@ mod tests {
         assert_eq!(actual, expected);
 
         Ok(())
+    }
+
+    #[tokio::test]
+    async fn test_read_header_with_an_unsatisfiable_names_length() {
+        let data = [
+            0x00, 0x00, 0x00, 0x00, // format = Generic(GFF)
+            0x01, 0x00, 0x00, 0x00, // col_seq = 1
+            0x04, 0x00, 0x00, 0x00, // col_beg = 4
+            0x05, 0x00, 0x00, 0x00, // col_end = 5
+            0x23, 0x00, 0x00, 0x00, // meta = '#'
+            0x00, 0x00, 0x00, 0x00, // skip = 0
+            0xff, 0xff, 0xff, 0x7f, // l_nm = 2147483647
+            b's', b'q', b'0', 0x00, // names[0] = "sq0"
+        ];
+
+        let mut reader = &data[..];
+
+        assert!(matches!(
+            read_header(&mut reader).await,
+            Err(e) if e.kind() == io::ErrorKind::UnexpectedEof
+        ));
     }
 }
